@@ -243,7 +243,7 @@ pub fn explore(thorough: bool, result_path: &str) {
         let run = match css::transform("n.wxss", &text, &opts, 0, false) {
             Ok(r) => r,
             Err((s, m)) => {
-                rep.machinery_errors.push(format!("compiler panicked ({}: {}) on a numeric sheet", s, m));
+                rep.subject_panic("C10", &text, opts.to_json(), &format!("{}: {}", s, m));
                 return;
             }
         };
